@@ -1011,7 +1011,11 @@ def mpf_zeta(s, prec, rnd=round_fast, alt=0):
     pole_dist = -2*(aexp+abc)
     if pole_dist > wp:
         if alt:
-            return mpf_ln2(prec, rnd)
+            # eta(s) = ln2 + (euler*ln2 - ln2**2/2)*(s-1) + O((s-1)**2)
+            ln2 = mpf_ln2(wp)
+            c = mpf_sub(mpf_mul(mpf_euler(wp), ln2, wp),
+                mpf_shift(mpf_mul(ln2, ln2, wp), -1), wp)
+            return mpf_sub(ln2, mpf_mul(c, r, wp), prec, rnd)
         else:
             q = mpf_neg(mpf_div(fone, r, wp))
             return mpf_add(q, mpf_euler(wp), prec, rnd)
